@@ -257,7 +257,7 @@ func (f *Frame) staticCall(fn *ssa.Function, args []Val, in ssa.Instruction, rt 
 		}
 		return f.applyContract(fn, fc, args, in, rt)
 	}
-	if g.inlineDepth < 4 && inlinable(fn) {
+	if g.inlineDepth < 4 && inlinable(fn) && (g.P.inModule(fn) || tinyLeaf(fn)) {
 		return f.inline(fn, args, nil, rt)
 	}
 	if fn.Blocks != nil || true {
@@ -592,4 +592,18 @@ func (f *Frame) posOf(in ssa.Instruction) string {
 		return ""
 	}
 	return f.pos(in.Pos())
+}
+
+// tinyLeaf: a library function small enough to inline (no calls, a handful of instructions).
+func tinyLeaf(fn *ssa.Function) bool {
+	n := 0
+	for _, b := range fn.Blocks {
+		for _, in := range b.Instrs {
+			n++
+			if _, ok := in.(ssa.CallInstruction); ok {
+				return false
+			}
+		}
+	}
+	return n <= 20
 }
